@@ -100,6 +100,9 @@ func (e *Envelope) Sign(key Key) error {
 		return err
 	}
 
+	// SignPayload returns a new envelope, keep the signatures made so far
+	env.Signatures = append(e.envelope.Signatures, env.Signatures...)
+
 	e.envelope = env
 	return nil
 }
